@@ -115,6 +115,19 @@ def discharge(P, f, site, t):
                     consts.append(c.get("int") if c else None)
         if m and len(consts) == 2 and None not in consts and consts[1] - consts[0] == int(m.group(1)):
             return "P2: try_into of the constant-length slice [%d..%d] into [_; %s]" % (consts[0], consts[1], m.group(1))
+        # P2': a slice [x .. x + K] with the constant K equal to the array length (the slicing itself is a bounds check, not an unwrap)
+        if m:
+            for s_ in sl.sources(src["args"][0]):
+                if s_[0] == "agg" and s_[3].get("adt", "").endswith("ops::range::Range") and len(s_[3]["ops"]) == 2:
+                    lo, hi = s_[3]["ops"]
+                    lo_root = _copy_root(f, lo)
+                    for x in Slice(f).sources(hi):
+                        if x[0] == "binop" and x[1] in ("Add", "AddWithOverflow"):
+                            st_ = f.blocks[x[2]]["stmts"][x[3]]
+                            a_, b_ = st_["rv"]["a"], st_["rv"]["b"]
+                            k = (op_const(b_) or {}).get("int")
+                            if k == int(m.group(1)) and lo_root is not None and _copy_root(f, a_) == lo_root:
+                                return "P2: try_into of the slice [x .. x + %d] into [_; %s]" % (k, m.group(1))
         return None
     # P3: reduce/min/max after a non-empty test on the iterated container
     if scal.endswith(("Iterator::reduce", "Iterator::max", "Iterator::min", "Iterator::max_by", "Iterator::min_by", "Iterator::last")):
@@ -135,6 +148,21 @@ def discharge(P, f, site, t):
         g = _guard(f, src_site, cont, kinds=("nonempty", "peek", "len"))
         return ("P1: %s on %s after %s" % (scal.rsplit("::", 1)[1], cont, g)) if g else None
     return None
+
+
+def _copy_root(f, operand):
+    l = op_local(operand)
+    seen = set()
+    while l is not None and l not in seen:
+        seen.add(l)
+        dfs = [d for d in f.defs().get(l, []) if not d.get("partial")]
+        if 1 <= l <= f.arg_count or len(dfs) != 1 or dfs[0]["k"] != "assign" or dfs[0]["rv"]["k"] not in ("use", "cast"):
+            return l
+        nl = op_local(dfs[0]["rv"]["a"])
+        if nl is None:
+            return l
+        l = nl
+    return l
 
 
 def _arg_root(f, operand):
